@@ -33,6 +33,8 @@ def Cm(name):
 
 
 def canonical(key, lines):
+    if not lines:     # a field without value is rendered "Key: " + LF
+        return {"type": "field", "key": key, "lines": [], "tokens": [("KEY", symstr.lit(key)), ("COLON", symstr.lit(":")), ("WHITESPACE", symstr.lit(" ")), ("NEWLINE", symstr.lit("\n"))]}
     return {"type": "field", "key": key, "lines": lines, "tokens": db.field_tokens(key, lines, 0, True, " ")}
 
 
@@ -102,6 +104,8 @@ LAYOUTS = {
     "no final newline": [[F_("A", ["a"]), F_("B", ["b"], final_newline=False)]],
     "trailing comment in paragraph, then another paragraph": [[F_("A", ["a"]), F_("B", ["b"]), Cm("tail")], [F_("Z", ["z"])]],
     "single field without final newline": [[F_("A", ["a"], final_newline=False)]],
+    "no final newline, last line is a comment": [[F_("A", ["a"]), F_("B", ["b"]), {"type": "comment", "tokens": [("COMMENT", symstr.mk([("lit", "#"), ("atom", "note", "line")]))]}]],
+    "no final newline, last field has no value": [[F_("A", ["a"]), {"type": "field", "key": "B", "lines": [], "tokens": [("KEY", symstr.lit("B")), ("COLON", symstr.lit(":"))]}]],
 }
 OPS = [
     ("set", "A", [A("n")]), ("set", "B", [A("n")]), ("set", "B", [A("n1"), A("n2")]), ("set", "N", [A("n")]), ("set", "N", [A("n1"), A("n2")]),
